@@ -173,7 +173,7 @@ def extract_block(fdef, c, seg):
 # discharge
 # ------------------------------------------------------------------------------------------------
 RLIMIT = int(os.environ.get("PYVC_RLIMIT", "40000000"))
-TIMEOUT_MS = int(os.environ.get("PYVC_TIMEOUT_MS", "300000"))
+TIMEOUT_MS = int(os.environ.get("PYVC_TIMEOUT_MS", "90000"))
 
 
 def to_smt2(hyps, goal, axioms):
@@ -187,7 +187,40 @@ def to_smt2(hyps, goal, axioms):
 
 
 def solve_smt2(args):
-    """worker: (name, smt2, want_model_of) -> dict(status, backend, time_s, model, reason)"""
+    """worker: (name, smt2, want_model_of[, timeout_ms]) -> dict(status, backend, time_s, model, reason).
+    The query is solved in a CHILD process that is killed after the budget plus a grace period: z3's own
+    timeout / rlimit are cooperative and a query was seen to spin for half an hour past them.  A killed query is
+    `unknown` (hard timeout), never anything else."""
+    import json
+    tmo = args[3] if len(args) > 3 else TIMEOUT_MS
+    t0 = time.time()
+    fn = None
+    try:
+        with tempfile.NamedTemporaryFile("w", suffix=".json", delete=False) as f:
+            json.dump(list(args), f)
+            fn = f.name
+        env = dict(os.environ, PYTHONPATH=fw.ROOT + os.pathsep + os.environ.get("PYTHONPATH", ""))
+        p = subprocess.run([sys.executable, "-c",
+                            "import json,sys; from vlib.pyvc import api; "
+                            "print('\\nRESULT ' + json.dumps(api._solve_inproc(tuple(json.load(open(sys.argv[1]))))))", fn],
+                           capture_output=True, text=True, timeout=tmo / 1000.0 + 90, env=env)
+        line = [l for l in p.stdout.splitlines() if l.startswith("RESULT ")]
+        if line:
+            return json.loads(line[-1][7:])
+        return {"status": "unknown", "backend": None, "time_s": round(time.time() - t0, 3), "model": None,
+                "reason": f"solver child failed (exit {p.returncode}): {p.stderr.strip()[-200:]}"}
+    except subprocess.TimeoutExpired:
+        return {"status": "unknown", "backend": None, "time_s": round(time.time() - t0, 3), "model": None,
+                "reason": f"hard timeout: solver child killed after {int(tmo / 1000 + 90)} s"}
+    finally:
+        if fn:
+            try:
+                os.unlink(fn)
+            except OSError:
+                pass
+
+
+def _solve_inproc(args):
     name, smt2, model_names = args[:3]
     tmo = args[3] if len(args) > 3 else TIMEOUT_MS
     t0 = time.time()
@@ -378,7 +411,7 @@ def verify(names, pid=None, canaries=False, lock=None):
             flat.append(t)
     # one fresh process per query: z3's resource counter is then per query and results do not depend
     # on what the worker solved before
-    results = fw.pmap(solve_smt2, flat, chunksize=1, fresh_process_per_item=True)
+    results = fw.pmap(solve_smt2, flat, chunksize=1)   # (each query runs in its own killable child process)
     per_task = {}
     for (ti, fi) in index:
         per_task.setdefault(ti, []).append(results[fi])
